@@ -41,7 +41,8 @@ CLAIM = dict(
          "position) for every non-empty id list, and the root check accepts exactly that root; the integer depth is ceil(log2 n) "
          "for all 1 <= n < 2^32; for EVERY declared count, flag bytes, hash list and header root the counter-based traversal "
          "returns exactly what the position-based BIP-37 reference extractor returns (same matches in the same order, or BadData) "
-         "— hence sound and complete w.r.t. the reference — and never panics; a proof built by the reference BIP-37 builder for "
+         "— hence sound and complete w.r.t. the reference — and never panics (its third guard, 'Not all nodes consumed', is proved "
+         "unreachable: the model equals the model without it); a proof built by the reference BIP-37 builder for "
          "any count and any matched subset is accepted and yields exactly the matched ids in block order (given no equal sibling "
          "hashes). Tied to the code by a differential run (counts 1-600, every subset for small counts, 2^k and 2^k±1 up to 2^31 "
          "with sparse proofs, all single-bit / single-hash / count mutations, malformed objects, real blocks). BLOCK MODEL "
